@@ -402,6 +402,29 @@ func checkC31(p *Prog, r *Report) {
 		}
 	}
 	// (3)
+	// two invocations may write the same destination (e.g. --out_dir exports happen outside any lock): the write helper
+	// stages in a uniquely named temp file
+	importRules(p, r, checkC32, "fs/", "E5.atomic-write")
+	// outputs in plz-out are read by other invocations without the target's lock once the target is up to date: they are
+	// removed only when a build has failed or cached artifacts were rejected, never ahead of a build
+	if ro := p.Fn("build", "RemoveOutputs"); ro == nil {
+		r.unresolved("E7.outputs-removed-only-on-failure", "build.RemoveOutputs")
+	} else {
+		allowed := map[string]bool{"build.Build": true, "build.retrieveArtifacts": true, "clean.cleanTarget": true, "clean.Targets": true}
+		bad := ""
+		n := 0
+		for _, ci := range p.callers(ro) {
+			n++
+			f := topFunc(ci.Parent())
+			if strings.HasSuffix(fnPkg(f), "/src/clean") {
+				continue // `plz clean` is asked to remove them
+			}
+			if !allowed[fnName(f)] {
+				bad = fnName(f)
+			}
+		}
+		r.check(n > 0 && bad == "", "E7.outputs-removed-only-on-failure", "RemoveOutputs is called only after a failed build, for rejected cached artifacts, or by plz clean", p.pos(ro.Pos()), fnName(ro), itoa(n)+" call site(s), all in Build's failure path, retrieveArtifacts or package clean", "outputs are also removed by "+bad+" (e.g. while preparing a forced rebuild): another invocation that has found the target up to date reads plz-out/gen without the target's lock, and for the whole run time of the rebuilt command its inputs are missing")
+	}
 	// lock files are never unlinked: a process that holds (or waits on) the old inode and one that creates the name
 	// afresh would each hold "the" lock
 	{
